@@ -1,8 +1,10 @@
 """Sidecar contracts for labella/force.py (C03, C04, C06).
 
-Under contract: Force.set_options (the available width handed to the layering step), Force.nodes (setter resets the
-reported layering).  Force.compute is NOT under contract yet (it needs the layering algorithms' postcondition as an
-assumed contract and a permutation argument across the in-place sort of every layer): bounded only (drivers c04, c06).
+Under contract: Force.set_options (the available width handed to the layering step) and Force.compute from both entry
+states (no layering reported yet / a layering already reported): the detach loop establishes the precondition of
+distribute() (no label arrives with a stale stub), which is an obligation of compute; the reported layering is the list
+distribute() returned.  distribute()'s postcondition is assumed and removeOverlap is used through its frame (call-site
+summaries below); the layering algorithms themselves are bounded only (drivers c04, c06).
 """
 from pyvc.values import Str
 
